@@ -19,11 +19,21 @@
 (*      leaf 4: frames may switch the layout under a resting pointer.       *)
 (* MC_Routing_fastpath.cfg: the hit list is kept when the deepest hit is    *)
 (* unchanged; must be refuted on shape "P".                                 *)
+(*      Shape "W" is tree A in which widget 2 draws a surface of its own    *)
+(*      inside its surface.  Keys of class kM make one handler on the way   *)
+(*      answer with a focus command (with or without consume); with Answers *)
+(*      the two widgets of that focus change may answer their notifications *)
+(*      with a focus command or a consume (MC_Routing_nested.cfg).          *)
+(* Negative controls, one per as-found shape, each must be refuted:         *)
+(* MC_Routing_reentrant.cfg (focus-notifications), _livetarget.cfg          *)
+(* (offer-wrong-tgt), _bubbleskip.cfg (offer-missing-bub on shape "H"),     *)
+(* _consumeleak.cfg (offer-missing-bub), _dupself.cfg (shape "W").          *)
 (* MC_Routing_asfound.cfg switches the transcription to the code as found;  *)
 (* MC_Routing_staletarget.cfg to a dispatch whose target is the end of the  *)
 (* path; TLC must refute Conforms in both.                                  *)
 EXTENDS Integers, Sequences, FiniteSets, TLC
-CONSTANTS StalePath, AllSiblings, EnterOnFocusIn, StaleTarget, FastPath, Depth, Shapes
+CONSTANTS StalePath, AllSiblings, EnterOnFocusIn, StaleTarget, FastPath,
+          Reentrant, LiveTarget, BubbleSkipsLast, ConsumeLeak, DupSelf, Answers, Depth, Shapes
 
 R == INSTANCE Routing
 I == INSTANCE RoutingImpl
@@ -34,25 +44,37 @@ vars == <<T, im, st, n, why>>
 G(x, y, w, h, z) == [x |-> x, y |-> y, w |-> w, h |-> h, z |-> z, hid |-> FALSE]
 
 (* 1 -> {2 -> {4}, 3}; 3 overlaps 2 (and 4) and is above it *)
-TreeA(caps) == [n |-> 4, pars |-> <<<<0, 1, 1, 2>>>>, caps |-> caps,
+NoWraps == <<FALSE, FALSE, FALSE, FALSE>>
+TreeA(caps) == [n |-> 4, pars |-> <<<<0, 1, 1, 2>>>>, caps |-> caps, wraps |-> NoWraps,
                 lays |-> <<<<G(0, 0, 8, 4, 0), G(1, 1, 4, 3, 0), G(3, 1, 4, 2, 1), G(1, 0, 3, 2, 0)>>>>]
 (* tree A in a layout that does not draw 2 (nor, hence, its child 4) *)
 TreeH(caps) == [TreeA(caps) EXCEPT !.lays[1][2].hid = TRUE]
+(* tree A in which widget 2 draws a surface of its own inside its surface *)
+TreeW(caps) == [TreeA(caps) EXCEPT !.wraps[2] = TRUE]
 (* a chain 1 -> 2 -> 3 *)
-TreeB(caps) == [n |-> 3, pars |-> <<<<0, 1, 2>>>>, caps |-> SubSeq(caps, 1, 3),
+TreeB(caps) == [n |-> 3, pars |-> <<<<0, 1, 2>>>>, caps |-> SubSeq(caps, 1, 3), wraps |-> NoWraps,
                 lays |-> <<<<G(0, 0, 6, 3, 0), G(1, 1, 4, 2, 0), G(1, 0, 2, 2, 0)>>>>]
 (* the root shows page 2 or page 3 on the same rectangle; the page shown holds leaf 4 *)
 GH(x, y, w, h, z) == [G(x, y, w, h, z) EXCEPT !.hid = TRUE]
-TreeP(caps) == [n |-> 4, pars |-> <<<<0, 1, 1, 2>>, <<0, 1, 1, 3>>>>, caps |-> caps,
+TreeP(caps) == [n |-> 4, pars |-> <<<<0, 1, 1, 2>>, <<0, 1, 1, 3>>>>, caps |-> caps, wraps |-> NoWraps,
                 lays |-> << <<G(0, 0, 8, 4, 0), G(1, 1, 6, 3, 0), GH(1, 1, 6, 3, 0), G(1, 1, 3, 2, 0)>>,
                             <<G(0, 0, 8, 4, 0), GH(1, 1, 6, 3, 0), G(1, 1, 6, 3, 0), G(1, 1, 3, 2, 0)>> >>]
 Points == {<<0, 0>>, <<1, 1>>, <<2, 1>>, <<4, 2>>, <<6, 2>>, <<9, 9>>}
 
 (* on the tab view only the pages' capture bits matter (root and leaf do not capture) *)
-Trees == {CASE s = "A" -> TreeA(c) [] s = "H" -> TreeH(c) [] s = "P" -> TreeP([c EXCEPT ![1] = FALSE, ![4] = FALSE]) [] OTHER -> TreeB(c) :
+Trees == {CASE s = "A" -> TreeA(c) [] s = "H" -> TreeH(c) [] s = "W" -> TreeW(c) [] s = "P" -> TreeP([c EXCEPT ![1] = FALSE, ![4] = FALSE]) [] OTHER -> TreeB(c) :
             s \in Shapes, c \in [1..4 -> BOOLEAN]}
 
 Consumers(t) == {<<>>} \cup {<<w, ph>> : w \in 1..t.n, ph \in {"cap", "tgt", "bub"}}
+
+(* scripted answers to the notifications of the focus change im.focused -> f *)
+NoteAnswers(f) ==
+  IF ~Answers THEN {{}}
+  ELSE {{}} \cup {{[w |-> im.focused, cls |-> "fout", k |-> "focus", a |-> c]} : c \in 1..T.n}
+            \cup {{[w |-> f, cls |-> "fin", k |-> "focus", a |-> c]} : c \in 1..T.n}
+            \cup {{[w |-> im.focused, cls |-> "fout", k |-> "consume", a |-> 0]}, {[w |-> f, cls |-> "fin", k |-> "consume", a |-> 0]}}
+            \cup {{[w |-> im.focused, cls |-> "fout", k |-> "focus", a |-> c], [w |-> f, cls |-> "fin", k |-> "focus", a |-> d]} :
+                     c \in 1..T.n, d \in 1..T.n}
 
 Init == /\ T \in Trees /\ im = I!Im0 /\ st = R!St0 /\ n = 0 /\ why = ""
 
@@ -61,7 +83,7 @@ StepRec(in, offers) == [in |-> in, offers |-> offers]
 Do(in, res) ==
   LET e == StepRec(in, res.offers) IN
   /\ why' = R!StepWhy(T, st, e)
-  /\ st' = R!StepNext(st, e)
+  /\ st' = R!StepNext(T, st, e)
   /\ im' = res.im
 
 Next ==
@@ -70,6 +92,10 @@ Next ==
   /\ UNCHANGED T
   /\ \/ \E c \in Consumers(T) : Do([t |-> "key", cls |-> "ka"], I!Key(T, im, "ka", c, 0))
      \/ \E f \in 1..T.n : Do([t |-> "key", cls |-> "kF"], I!Key(T, im, "kF", <<>>, f))
+     \/ \* a handler on the way answers with a focus command, with or without consume; the widget losing the
+        \* focus (the one gaining it) may answer its notification with a focus command or a consume
+        \E hw \in 1..T.n, hph \in {"cap", "tgt", "bub"}, f \in 1..T.n, wc \in BOOLEAN : \E a \in NoteAnswers(f) :
+          I!OnRoute(T, im, hw, hph) /\ Do([t |-> "key", cls |-> "kM"], I!KeyMove(T, im, "kM", hw, hph, f, wc, a))
      \/ \E p \in Points, c \in Consumers(T) :
           Do([t |-> "mouse", cls |-> "mp0", x |-> p[1], y |-> p[2]], I!Mouse(T, im, p[1], p[2], "mp0", c))
      \/ Do([t |-> "tfout", cls |-> "tfout"], I!TFocusOut(im))
